@@ -477,7 +477,8 @@ class Shape:
     in force (lsb0, bytealigned, mxfp_overflow)."""
 
     def __init__(self, name, build, real=None, opts=None, loop_bound=None, timeout_ms=None, note='', props=None, stable=True,
-                 gen=None, bounded_only=False):
+                 gen=None, bounded_only=False, may_be_empty=False):
+        self.may_be_empty = may_be_empty   # True: the inputs may be unconstructible on a correct tree (then no obligation arises)
         self.bounded_only = bounded_only   # True: no symbolic exploration at all (body outside the prover); bounded stand-in only
         self.gen = gen            # optional: rng -> concrete input dict, for the bounded stand-in (domains the default
                                   # small-input generator cannot reach)
